@@ -38,26 +38,28 @@ func init() {
 }
 
 type childConf struct {
-	Mode     string           `json:"mode"`
-	Dir      string           `json:"dir"` // work dir of this child: data/, cmdlog-*.jsonl, result.json
-	Seed     int64            `json:"seed"`
-	Index    int              `json:"index"`
-	Engine   string           `json:"engine"`
-	Names    []RegisteredCmd  `json:"names"`
-	Clients  int              `json:"clients,omitempty"`
-	PerConn  int              `json:"cmds_per_client,omitempty"`
-	Workers  int              `json:"twin_workers,omitempty"`
-	Rounds   int              `json:"twin_rounds,omitempty"`
-	Cases    int              `json:"twin_cases,omitempty"`
-	Replay   [][]string       `json:"replay,omitempty"` // encoded argv list
-	BatchN   int              `json:"batch_rounds,omitempty"`
-	SnapCnt  int              `json:"snap_count,omitempty"`
-	ExpPol   string           `json:"exp_policy,omitempty"`
-	DataVer  string           `json:"data_version,omitempty"`
-	Canaries map[string]int64 `json:"canaries,omitempty"`
-	ReplayNS string           `json:"replay_ns,omitempty"`
-	Avoid    []string         `json:"avoid,omitempty"` // command names left out (they killed an earlier child)
-	BadIndex int              `json:"bad_index,omitempty"`
+	Mode       string           `json:"mode"`
+	Dir        string           `json:"dir"` // work dir of this child: data/, cmdlog-*.jsonl, result.json
+	Seed       int64            `json:"seed"`
+	Index      int              `json:"index"`
+	Engine     string           `json:"engine"`
+	Names      []RegisteredCmd  `json:"names"`
+	Clients    int              `json:"clients,omitempty"`
+	PerConn    int              `json:"cmds_per_client,omitempty"`
+	Workers    int              `json:"twin_workers,omitempty"`
+	Rounds     int              `json:"twin_rounds,omitempty"`
+	Cases      int              `json:"twin_cases,omitempty"`
+	Replay     [][]string       `json:"replay,omitempty"` // encoded argv list
+	BatchN     int              `json:"batch_rounds,omitempty"`
+	SnapCnt    int              `json:"snap_count,omitempty"`
+	ExpPol     string           `json:"exp_policy,omitempty"`
+	DataVer    string           `json:"data_version,omitempty"`
+	Canaries   map[string]int64 `json:"canaries,omitempty"`
+	ReplayNS   string           `json:"replay_ns,omitempty"`
+	Avoid      []string         `json:"avoid,omitempty"`       // command names left out (they killed an earlier child)
+	AvoidKinds []string         `json:"avoid_kinds,omitempty"` // mutation kinds left out
+	HoldS      int              `json:"hold_s,omitempty"`      // replay: keep the server running that long before the final canaries (periodic loops: metrics every 10 s)
+	BadIndex   int              `json:"bad_index,omitempty"`
 }
 
 type childViolation struct {
@@ -99,6 +101,14 @@ func (s *childState) avoided(name string) bool {
 		}
 	}
 	return false
+}
+
+func (s *childState) avoidKinds() map[string]bool {
+	m := map[string]bool{}
+	for _, k := range s.conf.AvoidKinds {
+		m[k] = true
+	}
+	return m
 }
 
 func (s *childState) count(k string, n int64) {
@@ -491,6 +501,7 @@ func (s *childState) runSingleServerModes() error {
 			}
 			conn.Close()
 		}
+		time.Sleep(time.Duration(conf.HoldS) * time.Second)
 		canary.probe("restart-after-reads")
 		return nil
 	case "replay":
@@ -527,6 +538,7 @@ func (s *childState) runSingleServerModes() error {
 			}
 		}
 		canary.strict = false
+		time.Sleep(time.Duration(conf.HoldS) * time.Second)
 		if !canary.quickProbe() {
 			// the apply loop is busy (a command answered "deadline exceeded" is still being applied): give the guards time
 			s.noteStall(s.start)
@@ -649,6 +661,7 @@ func (s *childState) fuzzClient(h *Host, ci int, names []string, canary *canaryP
 	stallWatchdog := 90 * time.Second
 	r := newRand(conf.Seed, int64(conf.Index*1000+ci))
 	g := NewGen(r, []string{"fz", "fz", "one"})
+	g.AvoidKinds = s.avoidKinds()
 	lg, err := newCmdLogger(conf.Dir, ci)
 	if err != nil {
 		s.inconclusive(err.Error())
